@@ -63,6 +63,8 @@ def gen_extract_doc(rng):
     return ''.join(out), expect, hidden
 
 def judge_extract(case, res):
+    if res['outcome'] == 'crash':
+        return ['extraction ends in %s' % res.get('exc')]
     if res['outcome'] != 'ok':
         return []
     txt = res['txt']
@@ -187,6 +189,12 @@ def run(ctx):
             # a definitions text that uses a listed macro itself: what it names belongs to the definitions, not to the document
             hw = gen.Names(rng).word() + 'def'
             opts['defs'] = '\\newcommand{\\zq}{z}\n\\inc{' + hw + '}\n'
+            hidden = hidden + [hw]
+        if rng.random() < 0.25:
+            # listed macros that have no mandatory argument at all: nothing of them is reported
+            hw = gen.Names(rng).word() + 'opt'
+            src = src + rng.choice([' ', '\n']) + rng.choice(['\\LaTeX{} ', '\\footnotemark[' + hw + '] ', '\\TeX{} \\footnotemark[' + hw + ']'])
+            opts['extr'] = 'inc,incb,LaTeX,TeX,footnotemark'
             hidden = hidden + [hw]
         ecases.append({'src': src, 'opts': opts, 'multi': False, 'kind': 'extract',
                        'expect': expect, 'hidden': hidden})
